@@ -339,6 +339,25 @@ theorem width_group (g : Group) (hne : g.entries ≠ []) (hn : '\n' ∉ g.name) 
         (g.entries.flatMap entryCores).map (·.1) ++ [0] :=
   group_lines g hne hn hd h
 
+/-- **The lines of the complete usage text.**  For every declaration whose group names, group descriptions, entry
+left columns and entry texts hold no line break: the usage text consists of the lines of the synopsis paragraph
+(`width_synopsis_unless_forced`), an empty line, the about text exactly as given (finding U4) and an empty line, and per
+group with entries an empty line, the heading, the optional description block and the entry lines - each of which
+has a core within its entry's left column or 80 (`width_option_section`). -/
+theorem width_usage (d : UDecl) (t o m l : List Entry) (h : ∀ g ∈ d.groups, GroupOk g) :
+    lineLens 0 (usage d t o m l) =
+      lineLens 0 (synopsisPara d t o m l) ++ [0] ++
+        (if d.about ≠ [] then lineLens 0 d.about ++ [0] else []) ++ d.groups.flatMap groupLinesOf ++ [0] ∧
+    ∀ g ∈ d.groups, ∀ p ∈ g.entries.flatMap entryCores,
+      p.2 ≤ p.1 ∧ ∃ e ∈ g.entries, p.2 ≤ max (entryLeft e).length 80 := by
+  refine ⟨usage_lines d t o m l h, fun g _ p hp => ?_⟩
+  obtain ⟨e, he, hpe⟩ := List.mem_flatMap.mp hp
+  exact ⟨(entryCores_width e p hpe).1, e, he, (entryCores_width e p hpe).2⟩
+
+example : GroupOk ⟨"arguments".toList, "what they do".toList,
+    [⟨.t, "verbose".toList, "v".toList, [], [], "be chatty".toList, none, none, 0, false⟩]⟩ := by
+  intro _; decide
+
 /-- **The model's layout constants are the source's**: the padding and width handed to `format_padded` by
 `base::format` (40, 80) and by `parser::usage` (8 + |app|, 80) are read off the two call sites on every run
 (`Generated/UsageLayout.lean`); the width theorems above are stated for exactly these numbers. -/
